@@ -20,6 +20,7 @@ inductive Instr where
   | scale (dst : Nat) (q : Rat)       -- `dst.scale(q)`
   | update (dst src : Nat)            -- `dst.update(src)`
   | addOffset (dst : Nat) (q : Rat)   -- `dst.offset += q`
+  | newQM                             -- allocate `QuadraticModel()` (the expression views' operators start from it)
 
 /-- the object an instruction mutates (allocations mutate nothing) -/
 def Instr.target : Instr → Option Nat
@@ -41,6 +42,7 @@ def setAt (h : Store) (i : Nat) (m : Model) : Store := h.set i m
 
 def step (h : Store) : Instr → Except Err Store
   | .copy s => match h[s]? with | some m => .ok (h ++ [m]) | none => .error .value
+  | .newQM => .ok (h ++ [emptyQM])
   | .fromBqm s => match h[s]? with | some m => .ok (h ++ [m.toQM]) | none => .error .value
   | .mulNew a b =>
     match h[a]?, h[b]? with
@@ -90,5 +92,26 @@ def progIsubSame (a b : Nat) : List Instr := [.scale a (-1), .update a b, .scale
 
 /-- all write targets are objects allocated by the program itself -/
 def WritesFresh (n : Nat) (p : List Instr) : Bool := p.all fun i => match i.target with | some d => decide (n ≤ d) | none => true
+
+/-! ## the remaining non-in-place forms -/
+
+/-- `quicksum([first, *rest])` when every `+=` is in place: `model = copy.deepcopy(first); for obj in rest: model += obj` -/
+def progQuicksum (first : Nat) (rest : List Nat) (n : Nat) : List Instr := .copy first :: rest.map (fun b => .update n b)
+/-- `quicksum([a, b])` with a BQM accumulator and a QM item: `BQM.__iadd__` declines, `model = model + obj` builds
+    `QuadraticModel.from_bqm(model) + obj` -/
+def progQuicksumPromote (a b n : Nat) : List Instr := [.copy a, .fromBqm n, .copy (n + 1), .update (n + 2) b]
+/-- `a ** 2` = `a * a` (same object twice) -/
+def progPow2 (a n : Nat) : List Instr := progMulSame a a n
+/-- `view + other`, `view - other`, `view + q`, `view - q` (`_ExpressionMixin`): `qm = QuadraticModel(); qm.update(self)`, then
+    the in-place operator on the fresh `qm` (with `from_bqm(other)` for a BQM operand) -/
+def progViewAdd (a b n : Nat) : List Instr := [.newQM, .update n a, .update n b]
+def progViewAddBqm (a b n : Nat) : List Instr := [.newQM, .update n a, .fromBqm b, .update n (n + 1)]
+def progViewSub (a b n : Nat) : List Instr := [.newQM, .update n a, .scale n (-1), .update n b, .scale n (-1)]
+def progViewSubBqm (a b n : Nat) : List Instr := [.newQM, .update n a, .fromBqm b, .scale n (-1), .update n (n + 1), .scale n (-1)]
+def progViewAddNum (a : Nat) (q : Rat) (n : Nat) : List Instr := [.newQM, .update n a, .addOffset n q]
+/-- `other + view`, `other - view` (`__radd__`, `__rsub__`): the copy `qm`, then the operator of `other` with `qm` as right operand -/
+def progViewRadd (a b n : Nat) : List Instr := [.newQM, .update n a] ++ progAddSame b n (n + 1)
+def progViewRsub (a b n : Nat) : List Instr := [.newQM, .update n a] ++ progSubSame b n (n + 1)
+def progViewRsubNum (a : Nat) (q : Rat) (n : Nat) : List Instr := [.newQM, .update n a] ++ progRsubNum n q (n + 1)
 
 end Sym
